@@ -245,7 +245,7 @@ def mask_spec(pid, optoks, spec):
             return "-" + spec[1:]
         if pid == "C03":
             return spec[:1] + "--"
-        if pid in ("C12", "C04", "C08"):
+        if pid in ("C12", "C04", "C08", "C05"):
             return "---"
     return spec
 
@@ -345,7 +345,31 @@ def classify_group_c09(ops, members, impl, model, known_all):
     return None
 
 
+def classify_group_c08(ops, members, impl, model, known_all):
+    """D18: JSON outputs of an option group that differ only by -0 versus 0"""
+    import re, binascii
+    known = [k for k in known_all["open"] if k["property"] == "C08" and k.get("op") == "group-ojson-negzero"]
+    if not known:
+        return None
+    texts = set()
+    for (i, _) in members:
+        if impl[i] != model[i].split(" | ")[0]:
+            return None
+        toks = ops[i].split()[2:]
+        if toks[0] != "ojson":
+            return None
+        h = impl[i].split(" ")[0]
+        try:
+            t = binascii.unhexlify(h).decode("utf8")
+        except Exception:
+            return None
+        texts.add(re.sub(r"(?<![\w.])-0(?![\d.eE])", "0", t))
+    return known[0]["id"] if len(texts) == 1 else None
+
+
 def classify_group(pid, ops, members, impl, model, known_all):
+    if pid == "C08":
+        return classify_group_c08(ops, members, impl, model, known_all)
     if pid == "C09":
         return classify_group_c09(ops, members, impl, model, known_all)
     """C12: answers differ inside a transformation group. Attributed to a listed finding only if
